@@ -94,7 +94,7 @@ CHECKS = {
    level="model_checking",
    text="Client.Do (select and insert-with-schema scenarios, the server answering only what it has received a reason to answer) is executed with a fault at every point: server stream cut after byte k (all k), client write failing after byte k (all k), a failing user callback, an exception as the first thing the server sends (whole, or cut after any of its bytes), unknown and unexpected packet codes - under five non-preemptive scheduling policies (sender first, receiver first, round robin, and the two run-to-block variants). When Do returns an error the real IsClosed/Ping/Do are used to assert: closed => further calls return ErrClosed with zero connection calls; open => the next Ping writes exactly its own byte (nothing encoded for the failed query is sent later) and succeeds against a server that answers Pong after whatever it had already sent (a stream that was cut stays cut, a connection whose writes fail keeps failing). Exhausting the loop budget is reported as does-not-return.",
    ref="DESIGN.md §4 C04",
-   note="bounds: two scenarios, one block each, revision 54460, compression off; switch points are channel operations, close(ch), WaitGroup.Wait and every call on the connection - orderings that need a preemption between two other statements are outside (cooperative coroutines); native replays of schedule-dependent counterexamples are repeated with random delays at the harness' yield points"),
+   note="bounds: two scenarios, one block each, revision 54460 (thorough: also 54459, 54453, 54445), compression off; switch points are channel operations, close(ch), WaitGroup.Wait and every call on the connection - orderings that need a preemption between two other statements are outside (cooperative coroutines); native replays of schedule-dependent counterexamples are repeated with random delays at the harness' yield points"),
  "C10": dict(
    level="model_checking",
    text="The caller's context is a harness type whose cancellation flips at the k-th observation (every Err/Done/Deadline call is a gate; k enumerated 0..10/24), for the select and insert scenarios, a responsive or a forever-silent server, writes that work or fail from the moment the context is done, and five scheduling policies; plus the same during Connect's hello exchange. When Do fails after the flip: errors.Is(err, context.Canceled), connection closed, client closed, the written bytes are a prefix of the reference stream ending at a flush boundary followed by at most one byte, which must be the Cancel code 3, and no goroutine of the call is left (engine-level leak check); with no caller deadline, a deadline one hour away, and deadlines that themselves expire (error must match context.DeadlineExceeded), the call is back within 3 s of the cancellation on the harness' virtual clock (a blocked read returns at the deadline the client set, so a read deadline taken from the caller's deadline instead of ReadTimeout shows as lateness); a loop that never observes the cancellation is reported as does-not-return.",
